@@ -123,6 +123,15 @@ func rewriteSites(p *dsl.Program) []rewriteSite {
 						// free text that spells words of the language: what decides a field's meaning must read its
 						// type, not the text of the whole declaration
 						x.Doc = "was zchar[8] before v2; repeat string u16 char[] match root packet @lengthOf(x) @leftPad('0')"
+						// ... and that holds one half of a bracketing pair of some other notation: the opening halves in
+						// the fields at even positions, the closing halves at odd positions, so that two doc strings
+						// applied together bracket the declarations between them (a text-level pre-pass that strips
+						// block comments, expands templates or balances brackets swallows those declarations)
+						if pth[len(pth)-1]%2 == 0 {
+							x.Doc += "; see specs/*.md <!-- ${ {{ ( [ { #if 0"
+						} else {
+							x.Doc += "; see venues/*/symbols.csv --> }} ) ] } #endif"
+						}
 					} else {
 						x.Doc = ""
 					}
